@@ -126,6 +126,7 @@ type vpOpts struct {
 	pendReads int   // max postponed MsgReadIndex (leader)
 	votes     bool  // symbolic votes map (candidates)
 	plainData bool  // log entries: type fixed to EntryNormal
+	inflPeers int   // number of peers (2, 3) whose in-flight window is non-trivial; 0 = all
 }
 
 // vpNode is a constructed node plus the facts the harness remembers about it.
@@ -168,6 +169,13 @@ func vpStorage(maxN int, k *vpConds, plain bool) *MemoryStorage {
 		ms.ents[i] = vpEntry(s+uint64(i), t, k, plain)
 		prev = t
 	}
+	// storage contract: a snapshot exists at an index >= the compaction point
+	// (and <= applied, added by vpInvLog); none is needed while nothing is compacted
+	si := vpU64()
+	k.add(si >= s)
+	k.add(si <= s+uint64(n))
+	st := vpStorageTermAt(ms, si)
+	ms.snapshot = &pb.Snapshot{Metadata: &pb.SnapshotMetadata{Index: new(si), Term: new(st), ConfState: &pb.ConfState{AutoLeave: new(false)}}, Data: vpBytes(vpMaxSize)}
 	return ms
 }
 
@@ -275,7 +283,10 @@ func vpBuildTracker(o vpOpts, sh vpShape, l *raftLog, k *vpConds) tracker.Progre
 				k.add(vpImplies(pr.State != tracker.StateSnapshot, pr.PendingSnapshot == 0))
 				k.add(vpImplies(pr.State == tracker.StateSnapshot, pr.PendingSnapshot <= last))
 				// in-flight window: nin messages with increasing indexes in (Match, Next-1]
-				nin := vpChoose(size + 1)
+				nin := 0
+				if o.inflPeers == 0 || int(id)-1 <= o.inflPeers {
+					nin = vpChoose(size + 1)
+				}
 				if nin > 0 {
 					k.add(pr.State == tracker.StateReplicate)
 				}
@@ -515,6 +526,11 @@ func vpInvLog(k *vpConds, l *raftLog, term uint64) {
 			k.add(vpImplies(e.GetIndex() < u.offset, e.GetTerm() <= term))
 		}
 		k.add(l.applied+1 >= s+1)
+		// storage contract: snapshots are taken at applied indexes
+		if ms.snapshot != nil {
+			k.add(ms.snapshot.GetMetadata().GetIndex() <= l.applied)
+			k.add(ms.snapshot.GetMetadata().GetIndex() >= s)
+		}
 	}
 	for i, e := range u.entries {
 		k.add(e.GetIndex() == u.offset+uint64(i))
@@ -642,6 +658,7 @@ func vpInvInto(k *vpConds, r *raft) {
 		k.add(r.lead == r.id)
 		k.add(r.Term >= 1)
 		k.add(r.Vote == r.id)
+		k.add(r.leadTransferee != r.id)
 		last := r.raftLog.lastIndex()
 		k.add(vpViewOf(r.raftLog).termAt(last) == r.Term)
 		vpInvProgress(k, r)
